@@ -394,6 +394,11 @@ def search(ck, tier, seed):
         verdict, val, est = v[1]
         if verdict == "bad" and name.startswith("Sigmoid;Logit ; LeakyReLU(0.2) |") and val < 1:
             continue        # the recorded Logit clamp finding, reported by the first pass
+        if verdict == "bad" and clamp_explains(fl, ctx, 1, box, tier):
+            # the recorded defect at another call site (same causal test as in the first pass)
+            ck.finding("flow:logit-clamp-truncates-support",
+                       "%s (restored) integrates to %.8f; with Logit's clamp at 1e-15 instead of 1e-6 it integrates to one" % (name, val), case)
+            continue
         if verdict == "bad":
             ck.finding("flow:density-does-not-integrate-to-one:after-load:%s" % name,
                        "evaluated once, then loaded with another state dict: integral %.8f (resolution %.1e)" % (val, est), case)
